@@ -35,6 +35,7 @@ RULE = (
     "cancelled later fails with a cancellation error without disturbing the others; stop fails every outstanding send with a cancellation error and nothing "
     "is transmitted afterwards, no timer remains. non-trivial = a threshold met while a batch is in flight, a cancel of a queued send followed by more sends, "
     "a dispatch by the time limit, or stop with an in-flight batch and a non-empty queue; distinct = distinct trace."
+    ' Also: a send its caller cancelled after dispatch must not be fired again by the producer; the time-limit clause waits while undelivered network events are pending and counts from the last transmission.'
 )
 ASSUMPTIONS = [
     "dispatch instants are compared only while topic metadata is warm and the leader's connection is up (so a dispatch is a synchronous write)",
